@@ -26,3 +26,6 @@ add('C10','model_checking','explicit-state BFS + long-chain enumeration, pairwis
 add('C05','model_checking','exhaustive enumeration of trees x versions x keys x single-field proof mutations (and forged-leaf constructions) against the real query/verify code',
  'Completeness: every proof the store returns for every key of every enumerated tree/version verifies. Soundness: every enumerated alteration of key, value, claim, root, op envelope, multistore proof and IAVL range proof must fail; accepted alterations are classified as false-statement or malleable.',
  'Soundness is over the enumerated mutation alphabet (single-field edits + known forgery constructions), not over all byte strings.')
+add('C07','fault_enumeration','crash-point enumeration: every subset of per-substore commit batches x every commit history (BFS) on the real rootmulti.Store over a recording DB',
+ 'For every committed state of every history up to the depth, the last commit is interrupted after every possible set of database writes; each crash state is reopened and must equal the last committed block, re-execution must reproduce the uninterrupted hash, and the following block must agree.',
+ 'Atomic batches, no write reordering by the DB, MemDB-backed recording DB; store level (the app-level 7-substore commit is exercised by the chain checks).')
